@@ -112,6 +112,8 @@ def load_repo():
 # worker side
 
 _SUBS = None
+_FINDINGS = []
+_MATCHERS = {}
 
 
 def _work(job):
@@ -125,6 +127,8 @@ def _work(job):
     traces = 0
     discs = []
     ndisc = 0
+    known = {}
+    dropped = 0
     samples = []
     for i in range(lo, hi):
         case = sub.case(i)
@@ -145,16 +149,23 @@ def _work(job):
         traces += out.traces
         if out.disc:
             ndisc += len(out.disc)
-            if len(discs) < 400:
-                for d in out.disc:
-                    d = dict(d)
-                    d["index"] = i
-                    d["case"] = case
-                    d["sub_check"] = sub.name
+            for d in out.disc:
+                d = dict(d)
+                d["index"] = i
+                d["case"] = case
+                d["sub_check"] = sub.name
+                # known findings are matched here, before any cap, so that an unlisted violation can never be
+                # crowded out of the report by listed ones
+                rec = match_finding(_FINDINGS, _MATCHERS, d)
+                if rec is not None:
+                    known[rec["id"]] = known.get(rec["id"], 0) + 1
+                elif len(discs) < 400:
                     discs.append(d)
+                else:
+                    dropped += 1
         if len(samples) < 1 and (i == lo):
             samples.append(case)
-    return (si, lo, ev, nontriv, outcomes, states, transitions, traces, discs, ndisc, samples)
+    return (si, lo, ev, nontriv, outcomes, states, transitions, traces, discs, ndisc, samples, known, dropped)
 
 
 # ----------------------------------------------------------------------------------------
@@ -244,7 +255,10 @@ def run_property(prop, tier, seed, replay=None, jobs=None, only=None):
     if replay is not None:
         return _replay(prop, mod, subs, replay, findings, matchers)
 
+    global _FINDINGS, _MATCHERS
     _SUBS = subs
+    _FINDINGS = findings
+    _MATCHERS = matchers
     jobs = jobs or int(os.environ.get("VERIF_JOBS", "0")) or (os.cpu_count() or 1)
     work = []
     for si, sub in enumerate(subs):
@@ -255,7 +269,7 @@ def run_property(prop, tier, seed, replay=None, jobs=None, only=None):
         for lo in range(0, n, ch):
             work.append((si, lo, min(n, lo + ch)))
     per = {s.name: dict(evaluations=0, nontrivial=set(), outcomes=set(), states=set(), transitions=0,
-                        traces=0, discs=[], ndisc=0, samples=[], size=s.size()) for s in subs}
+                        traces=0, discs=[], ndisc=0, samples=[], size=s.size(), known={}, dropped=0) for s in subs}
     if jobs > 1 and len(work) > 1:
         ctx = multiprocessing.get_context("fork")
         pool = ctx.Pool(jobs)
@@ -264,7 +278,7 @@ def run_property(prop, tier, seed, replay=None, jobs=None, only=None):
         pool = None
         it = map(_work, work)
     try:
-        for (si, lo, ev, nontriv, outcomes, states, transitions, traces, discs, ndisc, samples) in it:
+        for (si, lo, ev, nontriv, outcomes, states, transitions, traces, discs, ndisc, samples, known, dropped) in it:
             p = per[subs[si].name]
             p["evaluations"] += ev
             p["nontrivial"] |= nontriv
@@ -275,6 +289,9 @@ def run_property(prop, tier, seed, replay=None, jobs=None, only=None):
             p["traces"] += traces
             p["discs"].extend(discs)
             p["ndisc"] += ndisc
+            p["dropped"] += dropped
+            for k, v in known.items():
+                p["known"][k] = p["known"].get(k, 0) + v
             if lo == 0 or len(p["samples"]) < SAMPLE_CAP:
                 p["samples"].extend(samples)
     finally:
@@ -291,12 +308,10 @@ def run_property(prop, tier, seed, replay=None, jobs=None, only=None):
         p = per[sub.name]
         p["discs"].sort(key=lambda d: (d["index"], d["message"]))
         written = 0
+        for k, v in p["known"].items():
+            known_hit[k] = known_hit.get(k, 0) + v
+        violations += p["dropped"]
         for d in p["discs"]:
-            rec = match_finding(findings, matchers, d)
-            if rec is not None:
-                k = rec["id"]
-                known_hit[k] = known_hit.get(k, 0) + 1
-                continue
             violations += 1
             if written < REPLAY_CAP:
                 path = write_replay(prop, tier, seed, d, sub)
@@ -305,9 +320,8 @@ def run_property(prop, tier, seed, replay=None, jobs=None, only=None):
                 lines.append("  [%s #%d] %s | case=%s | expected=%s observed=%s" % (
                     sub.name, d["index"], d["message"][:300], _short(d["case"]), _short(d["expected"]),
                     _short(d["observed"])))
-        if p["ndisc"] > len(p["discs"]):
-            lines.append("  (%s: %d discrepancies in total, %d kept for reporting)" % (
-                sub.name, p["ndisc"], len(p["discs"])))
+        if p["dropped"]:
+            lines.append("  (%s: %d further unlisted discrepancies not itemised)" % (sub.name, p["dropped"]))
         if p["evaluations"] != p["size"]:
             harness_error = True
             lines.append("HARNESS-ERROR %s: %d of %d cases evaluated" % (sub.name, p["evaluations"], p["size"]))
@@ -328,7 +342,7 @@ def run_property(prop, tier, seed, replay=None, jobs=None, only=None):
                 msg = str((t.get("problems") or [""])[0]) if t.get("problems") else ("" if t.get("kind") else d["message"])
                 key = (sub.name,) + tuple("%s=%s" % (k, t.get(k)) for k in (
                     "kind", "cmd", "prev_kind", "exc", "op", "field", "segkind", "first_kind", "status", "entry",
-                    "fault", "family", "getter", "setter", "unit", "ua", "ub", "form", "fn", "which", "access", "u1", "u2", "wrap", "pos", "side", "names", "nargs", "align", "mos", "supply", "comp", "ws", "vb", "complete", "zero_vb", "zero_el", "reify", "obj", "event", "shape", "how", "m", "kind2", "build", "within_6digit_envelope", "tpl", "arc", "ctx", "fragment", "seg", "fam", "defect", "stroke", "sub_kind", "group", "zero", "curve", "variant", "conv", "n", "pos") if t.get(k) is not None) + (
+                    "fault", "family", "getter", "setter", "unit", "ua", "ub", "form", "fn", "which", "access", "u1", "u2", "wrap", "pos", "side", "names", "nargs", "align", "mos", "supply", "comp", "ws", "vb", "complete", "zero_vb", "zero_el", "reify", "obj", "event", "shape", "how", "m", "kind2", "build", "within_6digit_envelope", "tpl", "arc", "ctx", "fragment", "seg", "fam", "defect", "stroke", "sub_kind", "group", "zero", "curve", "variant", "conv", "n", "pos", "nomove") if t.get(k) is not None) + (
                     re.sub(r"[-+]?[0-9]*\.?[0-9]+(?:[eE][-+]?[0-9]+)?", "#", msg)[:150],)
                 grp[key] += 1
                 ex.setdefault(key, d["case"])
